@@ -307,6 +307,18 @@ func finish(prop, tier, level, explanation string, seed int, r *runResult, known
 		fnames = append(fnames, f)
 	}
 	sort.Strings(fnames)
+	if r.trust == nil {
+		r.trust = []string{}
+	}
+	if r.notes == nil {
+		r.notes = []string{}
+	}
+	if r.selftests == nil {
+		r.selftests = []string{}
+	}
+	if samples == nil {
+		samples = []any{}
+	}
 	cov := map[string]any{
 		"evaluations":         total,
 		"distinct_nontrivial": nontrivial,
